@@ -3,7 +3,7 @@
    and the fail-the-rest loop; transaction level: the loop of finalize_receive over an abstract
    filestore, and "once": requests and responses are frozen when the data phase is left). *)
 From CFDP Require Import Base.Prelude Model.Path Model.FsModel Proofs.PathP Proofs.FsModelP.
-From CFDP Require Import Model.Timer Model.TxTypes Model.Recv Model.Send Model.TxInst Proofs.RecvP Proofs.RecvRun.
+From CFDP Require Import Model.Timer Model.TxTypes Model.Recv Model.Send Model.TxInst Proofs.RecvP Proofs.RecvRun Proofs.RespP.
 
 (* every request, on every tree: the status reported is the one the declarative
    table [spec_status] assigns to the current tree (success exactly when the
@@ -162,6 +162,25 @@ Proof.
   intros. split; [apply resps_frozen_run; assumption|]. apply frozen_run. assumption.
 Qed.
 
+(* the Finished PDU: invariant RQ - while the transaction is receiving data no Finished PDU is
+   held ready, and whenever one is held ready it carries exactly the recorded responses - holds
+   initially and is kept by EVERY operation (faults with any handler, cancels, suspensions,
+   timeouts, duplicates); hence the Finished PDU the send arm puts on the link carries the
+   responses the finalisation recorded and reported to the user. (This needs the repaired
+   unacknowledged EOF handler, fix 860603f.) *)
+Theorem C13_tx_finished_pdu_invariant_initial : forall FS now cfg np (fs : FS), RQ FS (r_new now cfg np fs).
+Proof. exact RQ_init. Qed.
+Theorem C13_tx_finished_pdu_invariant : forall FS fs_write_file fs_exec resp_fail not_performed cksum
+  resp_len req_len now o (s : rstate FS),
+  RQ FS s -> RQ FS (fst (rstep FS fs_write_file fs_exec resp_fail not_performed cksum resp_len req_len now o s)).
+Proof. exact RQ_rstep. Qed.
+Theorem C13_tx_finished_pdu_carries_responses : forall FS resp_len req_len now (s : rstate FS) p f,
+  RQ FS s -> In (OPdu p) (r_out (send_finished resp_len req_len now s)) -> ~ In (OPdu p) (r_out s) ->
+  o_payload p = PFinished f -> fin_resps f = r_resps s.
+Proof. exact finished_pdu_carries_responses. Qed.
+Check (fun FS (s : rstate FS) (H : RQ FS s) => H :
+  (r_phase s = RecvData -> r_fin s = None) /\ (forall f b, r_fin s = Some (f, b) -> fin_resps f = r_resps s)).
+
 (* the sending user: a Finished PDU handed to the send transaction (acknowledged mode, or
    unacknowledged with closure) produces a Finished indication carrying exactly the PDU's responses *)
 Theorem C13_tx_sender_shows_responses : forall now f (s : sstate),
@@ -215,3 +234,6 @@ Print Assumptions C13_tx_loop_shape.
 Print Assumptions C13_tx_same_responses_everywhere.
 Print Assumptions C13_tx_once.
 Print Assumptions C13_tx_sender_shows_responses.
+Print Assumptions C13_tx_finished_pdu_invariant_initial.
+Print Assumptions C13_tx_finished_pdu_invariant.
+Print Assumptions C13_tx_finished_pdu_carries_responses.
